@@ -32,7 +32,8 @@ func GeneratePattern(pattern profile.PatternRule, iriExpander *misc.IriExpander)
 	if err != nil {
 		escapedArgumentStringByes = []byte{}
 	}
-	escapedArgumentString := string(escapedArgumentStringByes)
+	// the JSON text is pasted into the module as a Rego term: a byte-order mark has to be written as its escape there too
+	escapedArgumentString := strings.ReplaceAll(string(escapedArgumentStringByes), "\ufeff", `\ufeff`)
 
 	r := SimpleRegoResult{
 		Constraint: "pattern",
@@ -48,9 +49,10 @@ func GeneratePattern(pattern profile.PatternRule, iriExpander *misc.IriExpander)
 }
 
 // regoPatternLiteral writes a regular expression as a raw string between backticks; a pattern that itself contains a
-// backtick cannot be written that way and becomes an escaped double-quoted string.
+// backtick (or a byte-order mark, which the engine refuses unescaped) cannot be written that way and becomes an escaped
+// double-quoted string.
 func regoPatternLiteral(pattern string) string {
-	if strings.Contains(pattern, "`") {
+	if strings.Contains(pattern, "`") || strings.Contains(pattern, "\ufeff") {
 		return "\"" + regoStringContent(pattern) + "\""
 	}
 	return "`" + pattern + "`"
